@@ -330,7 +330,14 @@ func runC08(c *Ctx) {
 			}
 		}
 		j := CallsTo(Calls(cons), `\(\*sio\.serverSocket\)\.Join`)
-		c.Ob("C08-D4", "sio.newServerSocket/rejoins-rooms", cons.Pos(), len(j) == 1 && Term(j[0].Arg(0)) == "previousSession.Rooms" && HasGuard(j[0].Instr, `\(previousSession != nil\)==true`), "a restored socket must re-join the session's rooms")
+		// (any further Join of the constructor — e.g. of the socket's own room — is none of this rule's business)
+		rejoined := false
+		for _, jc := range j {
+			if Term(jc.Arg(0)) == "previousSession.Rooms" && HasGuard(jc.Instr, `\(previousSession != nil\)==true`) {
+				rejoined = true
+			}
+		}
+		c.Ob("C08-D4", "sio.newServerSocket/rejoins-rooms", cons.Pos(), rejoined, "a restored socket must re-join the session's rooms")
 		// replay: each missed packet re-encoded with its own header and data, in order
 		enc := CallsTo(Calls(cons), `\(parser\.Parser\)\.Encode`)
 		okE := len(enc) == 1 && inLoop(enc[0].Instr.Block()) && strings.HasPrefix(Term(enc[0].Arg(0)), "previousSession.MissedPackets[") && strings.HasSuffix(Term(enc[0].Arg(0)), "].Header") && strings.HasSuffix(Term(enc[0].Arg(1)), "].Data")
